@@ -3,6 +3,8 @@
 From Coq Require Import List NArith.
 From RaftLog Require Import Base.Bytes Model.Types Model.Cache Model.Core Model.Recover Model.Run.
 From RaftLog Require Import Proofs.NoPanic.
+From RaftLog Require Import Model.Sys Spec.Durable.
+From RaftLog Require Proofs.JournalFacts Proofs.CacheRestart Proofs.CrashSteps Proofs.ReadNoPanic.
 Import ListNotations.
 
 (* Every run from an empty directory — any operations, any argument values, any
@@ -37,6 +39,42 @@ Theorem C16_next_index_in_range_partial : forall k r k' off len effs,
   end.
 Proof. exact NoPanic.C16_next_index_in_range_partial. Qed.
 
+(* ---- panics INSIDE a read.  A read returns items; RIPanic stands for a panic in the read
+   path: the u64 subtraction `segment.offset - chunk.global_start` in Chunk::read_record
+   (modelled: read_record = Panic when the offset lies below the chunk's start) or a record
+   that decodes to something other than an Append.  Neither can happen: *)
+
+(* the subtraction never underflows: every index entry lies inside the chunk it names *)
+Theorem C16_read_record_no_underflow : forall y i ld c, JournalFacts.journal_wf y ->
+  In (i, ld) (m_log (k_sm (y_core y))) ->
+  closed_get (ld_chunk ld) (k_closed (y_core y)) = Some c ->
+  (ck_id (cl_chunk c) <= ld_off ld)%N.
+Proof. exact ReadNoPanic.C16_read_record_no_underflow. Qed.
+
+(* the branch is live in the model: exactly the offsets below the chunk's start panic *)
+Theorem C16_read_record_panic_iff : forall d c off len,
+  read_record d c off len = Panic <-> (off < ck_id c)%N.
+Proof. exact ReadNoPanic.read_record_panic_iff. Qed.
+
+(* no item of any read of any run is a panic: any history of well-formed operations, restarts
+   anywhere, any cache limits (0 included: items may be errors in the F2 class, never panics) *)
+Theorem C16_run_reads_no_panic : forall cfg ops res fin,
+  forallb CacheRestart.op_c15 ops = true -> Forall JournalFacts.op_wf ops ->
+  run_case cfg ops = (res, fin) ->
+  forall items, In (ResRead items) res -> ~ In RIPanic items.
+Proof. exact ReadNoPanic.C16_run_reads_no_panic. Qed.
+
+(* the same in every state of the small-step system: any worker position (bytes buffered,
+   queued, partly written), failed writes/syncs/unlinks, worker death; update_state included *)
+Theorem C16_read_items_no_panic_L2 : forall cfg z,
+  zreach cfg z -> CrashSteps.hist_wf z ->
+  (forall from to, ~ In RIPanic (snd (do_read (z_core z) (z_disk z) from to))) /\
+  ~ In RIPanic (do_dump_iter (z_core z) (z_disk z)).
+Proof. exact ReadNoPanic.C16_read_items_no_panic_sys. Qed.
+
 Print Assumptions C16_no_panic.
 Print Assumptions C16_write_no_panic.
 Print Assumptions C16_next_index_in_range_partial.
+Print Assumptions C16_run_reads_no_panic.
+Print Assumptions C16_read_items_no_panic_L2.
+Print Assumptions C16_read_record_no_underflow.
